@@ -12,9 +12,12 @@
  *                   followed by its copy (<= COPY_MAX2 bytes) decoded at the position AFTER the block, or a bare copy.
  *   harness_block   read_byte_block for every block length 1..216: exactly that many bytes are read, and a copy
  *                   command follows unless the block has the maximal length 216 (callees stubbed).
- * Stubs: bit reader = BITS_SPEC; find_in_history_list returns an arbitrary "value at rank" (harness_fields: a ghost
- * array; harness_read: one arbitrary byte per call) and records the rank; update_history_list records the bytes in
- * order (both justified by mtf.*); harness_block additionally stubs read_byte, outputted_byte, read_copy_command. */
+ * Stubs: bit reader = BITS_SPEC; find_in_history_list (harness_fields) returns an arbitrary "value at rank" ghost
+ * array and records the rank; update_history_list records the bytes in order (both justified by mtf.*);
+ * harness_read replaces read_byte by its contract from harness_fields (consumes the bits of one coded rank under
+ * the current start header, returns an arbitrary byte) because --arrays-uf-always, needed for the 16 KiB window,
+ * crashes CBMC 6.11 on the tree walk through a symbolic row pointer; harness_block stubs read_byte,
+ * outputted_byte, read_copy_command. */
 #define BITS_SPEC
 #ifndef BS_N
 #define BS_N 8
@@ -45,19 +48,28 @@ static void load_bits(const u8 *data, unsigned skip)
 	bs_pos = skip;
 }
 
-#if defined(FIELDS_HARNESS) || defined(READ_HARNESS)
-static const u8 *ghost_ord;                       /* FIELDS: value at each rank; READ: value returned by the k-th lookup */
-static unsigned find_calls, find_rank[BLOCK_MAX + 1];
+#ifdef FIELDS_HARNESS
+static const u8 *ghost_ord;                       /* value at each rank */
+static unsigned find_calls, find_rank;
 static uint8_t find_in_history_list(HistoryLinkedList *list, uint8_t count)
 {
-	unsigned k = find_calls++;
 	(void) list;
-	if (k <= BLOCK_MAX) find_rank[k] = count;
-#ifdef FIELDS_HARNESS
+	++find_calls;
+	find_rank = count;
 	return ghost_ord[count];
-#else
-	return ghost_ord[k <= BLOCK_MAX ? k : BLOCK_MAX];
+}
 #endif
+#ifdef READ_HARNESS
+/* contract of read_byte as established by harness_fields for every start header: consumes exactly the bits of one
+ * coded rank and returns the history entry at that rank (here: an arbitrary byte per call, the rank is recorded) */
+static const u8 *rb_vals;
+static unsigned rb_calls, rb_rank[BLOCK_MAX], rb_header_ok = 1, rb_header;   /* rb_header: ghost, set by the harness */
+static int read_byte(LHAPM1Decoder *decoder)
+{
+	unsigned k = rb_calls++;
+	if (decoder->byte_decode_tree != byte_decode_trees[rb_header]) rb_header_ok = 0;
+	if (k < BLOCK_MAX) rb_rank[k] = pm1_ref_rank(rb_header, &bs_pos);
+	return rb_vals[k < BLOCK_MAX ? k : 0];
 }
 #endif
 #if defined(COPY_HARNESS) || defined(READ_HARNESS)
@@ -113,7 +125,7 @@ void harness_fields(void)
 
 	got = read_byte(&dec);
 	want = pm1_ref_rank(row, &cur);
-	CHECK(find_calls == 1 && find_rank[0] == want && bs_pos == cur, "C04: byte = history rank: class base + extra bits (4,4,5,6,6,6)");
+	CHECK(find_calls == 1 && find_rank == want && bs_pos == cur, "C04: byte = history rank: class base + extra bits (4,4,5,6,6,6)");
 	CHECK(got == (int) ord[want], "C04: byte value is the history entry at that rank");
 	if (want == 255) WITNESS("rank 255");
 	WITNESS("end");
@@ -161,8 +173,8 @@ void harness_copy(void)
 			unsigned e = (probe + RING_BUFFER_SIZE - pos0) % RING_BUFFER_SIZE;
 			CHECK(dec.ringbuf[probe] == (e < len ? out[e] : d0.ringbuf[probe]), "C04: window after a copy = old window with the output appended");
 		}
-		if (cls == 5 && opos == 6719 && dist == 2624 + 4095) WITNESS("class 5 with 12 distance bits at the last position before 13");
-		if (cls == 5 && opos == 6720 && dist == 2624 + 4096) WITNESS("class 5 with 13 distance bits");
+		if (cls == 5 && opos == 6719 && dist == 2624 + 4094) WITNESS("class 5 with 12 distance bits at the last position before 13, farthest valid distance");
+		if (cls == 5 && opos == 6720 && dist == 2624 + 4095) WITNESS("class 5 with 13 distance bits at the first such position");
 		if (cls == 4 && opos == 831 && dist == 576 + 254) WITNESS("class 4 with 8 distance bits");
 		if (cls == 3 && opos == 320 && dist == 64 + 255) WITNESS("class 3 with 9 bits, farthest valid distance");
 		if (len == COPY_MAX && d == 1) WITNESS("run (distance 1)");
@@ -177,7 +189,7 @@ void harness_copy(void)
 void harness_read(void)
 {
 	INPUT_ARRAY(u8, data, BS_N);
-	INPUT_ARRAY(u8, vals, BLOCK_MAX + 1);
+	INPUT_ARRAY(u8, vals, BLOCK_MAX);
 	INPUT(u32, skip); INPUT(u32, opos); INPUT(u32, pos0); INPUT(u32, probe); INPUT(u32, idx); INPUT(u32, row);
 	LHAPM1Decoder d0;
 	u8 out[OUTPUT_BUFFER_SIZE];
@@ -185,13 +197,14 @@ void harness_read(void)
 	size_t n;
 	ASSUME(skip < 8 && opos < 0x7fff0000u && pos0 < RING_BUFFER_SIZE && probe < RING_BUFFER_SIZE && idx < BLOCK_MAX + COPY_MAX2 && row <= 32);
 	load_bits(data, skip);
-	ghost_ord = vals;
+	rb_vals = vals;
 	/* reference decode of the whole command */
 	cur = skip;
 	if (row == 32) {                             /* start of stream: the 5-bit header selects the byte code */
 		ASSUME(opos == 0);
 		header = PMA_BITS(cur, 5); cur += 5;
 	} else header = row;
+	rb_header = header;
 	is_block = PMA_BITS(cur, 1); cur += 1;
 	if (is_block) {
 		blen = pma_ref_rows(pm1_ref_block_len, 5, &cur);
@@ -215,10 +228,10 @@ void harness_read(void)
 	CHECK(n == total, "C04: one read = [byte block +] copy");
 	CHECK(bs_pos == cur, "C04: command = [5-bit header at the start] + command bit + [block length + bytes] + copy");
 	CHECK(dec.byte_decode_tree == byte_decode_trees[header], "C04: the 5-bit stream header selects the byte code for the whole stream");
-	CHECK(find_calls == blen, "C04: one history lookup per byte of the block");
+	CHECK(rb_calls == blen && rb_header_ok, "C04: one coded byte per position of the block, decoded under the stream's start header");
 	for (i = 0; i < BLOCK_MAX; ++i) if (i < blen) {
-		CHECK(find_rank[i] == rank[i], "C04: i-th byte of a block is looked up at its coded rank");
-		CHECK(out[i] == vals[i], "C04: i-th byte of a block is the history entry found there");
+		CHECK(rb_rank[i] == rank[i], "C04: i-th byte of a block is the i-th coded rank after the block length");
+		CHECK(out[i] == vals[i], "C04: i-th byte of a block is the byte decoded for it");
 	}
 	if (idx < total) {
 		if (idx >= blen) {
